@@ -1321,6 +1321,52 @@ def _m_sig(b, blocks, do_swap):
     return c
 
 
+def _m_atoms(F, b, blocks, do_swap, depth=0):
+    """Structure-insensitive signature of a piece of code: the *set* of its comparisons and arithmetic operations (operator
+    plus the constants and field names among the operands) and of the functions it calls.  Private helpers defined in the
+    same file are looked through one level, so moving the body of one arm into a helper changes nothing; neither do
+    renamed bindings, `matches!` vs `match`, merged `if`s or hoisted sub-expressions."""
+    out = set()
+    for bi in blocks:
+        blk = b.blocks[bi]
+        for s in blk["s"]:
+            rv = s["rv"]
+            if rv["k"] not in ("bin", "un"):
+                continue
+            names = []
+            for pl in rvalue_places(rv):
+                for e in place_proj(pl):
+                    if e[0] == "f" and e[2] and e[3] != "tuple":
+                        names.append(_m_canon(_m_swap(e[2])) if do_swap else _m_canon(e[2]))
+            for o in (rv.get("a"), rv.get("b"), rv.get("o")):
+                if o and o.get("k"):
+                    d = str(o["k"].get("d"))
+                    if o["k"].get("s") is not None:
+                        d = "<str>"
+                    if "promoted" in d:
+                        d = "<promoted>"
+                    if do_swap:
+                        d = d.replace("LAST_ROW", "LAST_X").replace("LAST_COLUMN", "LAST_ROW").replace("LAST_X", "LAST_COLUMN")
+                        d = {"1048576_i32": "16384_i32", "16384_i32": "1048576_i32"}.get(d, d)
+                    names.append(d)
+            op = rv.get("op", "").replace("WithOverflow", "")
+            if op in ("Eq", "Ne") and set(names) <= {"true", "false", "0_u8", "1_u8"}:
+                continue      # a bool test spelled as a comparison
+            out.add((rv["k"], op) + tuple(sorted(set(names))))
+        t = blk["t"]
+        if t["k"] == "call":
+            c = b.callee(t)
+            q = b.callee_q(t) or "?"
+            ln = q.rsplit("::", 1)[-1]
+            hc = F.heads.get(c) if c else None
+            if depth == 0 and hc is not None and F.has(c) and hc.get("file") == b.file and hc.get("vis") not in ("pub",) and c != b.path:
+                hb = F.body(c)
+                out |= _m_atoms(F, hb, [i for i in range(len(hb.blocks)) if not hb.is_cleanup(i)], do_swap, depth + 1)
+            else:
+                out.add(("call", _m_canon(_m_swap(ln)) if do_swap else _m_canon(ln)))
+    return out
+
+
 MIRROR_PAIRS = {
     "struct": ["model::Model::can_delete_rows", "model::Model::can_insert_rows", "model::Model::can_move_rows_action",
                "user_model::common::UserModel::insert_rows"],
@@ -1373,9 +1419,9 @@ def mirror_rule(ck, F, groups, rule="MIRROR", arms=False):
             if a not in regions or c not in regions:
                 ck.ob(rule, "stringify_reference|%s/%s" % (a, c), False, "arm missing", b.file, b.line)
                 continue
-            sa, sc = _m_sig(b, regions[a] - shared, True), _m_sig(b, regions[c] - shared, False)
-            d1, d2 = list((sa - sc).items())[:3], list((sc - sa).items())[:3]
+            sa, sc = _m_atoms(F, b, regions[a] - shared, True), _m_atoms(F, b, regions[c] - shared, False)
+            d1, d2 = sorted(sa - sc)[:3], sorted(sc - sa)[:3]
             f, l = b.loc(sw[1][a])
             ck.ob(rule, "stringify_reference|%s arm mirrors %s arm" % (a, c), sa == sc,
                   "the DisplaceData::%s and ::%s arms of stringify_reference are no longer mirror images: only in %s %s, only in %s %s"
-                  % (a, c, a, d1, c, d2), f, l, sample={"arms": [a, c], "statements": sum(sa.values())})
+                  % (a, c, a, d1, c, d2), f, l, sample={"arms": [a, c], "atoms": len(sa)})
